@@ -148,6 +148,33 @@ class _P:
         self.i += len(tok)
 
 
+def _balanced(text: str) -> bool:
+    depth = 0
+    in_str = False
+    i = 0
+    while i < len(text):
+        c = text[i]
+        if in_str:
+            if c == "\\":
+                i += 1
+            elif c == '"':
+                in_str = False
+        elif c == '"':
+            in_str = True
+        elif text.startswith("<<", i):
+            depth += 1
+            i += 1
+        elif text.startswith(">>", i):
+            depth -= 1
+            i += 1
+        elif c in "[{(":
+            depth += 1
+        elif c in "]})":
+            depth -= 1
+        i += 1
+    return depth <= 0 and not in_str
+
+
 def parse_value(text: str) -> Any:
     p = _P(text)
     v = p.value()
@@ -237,6 +264,7 @@ def run_tlc(
     res.wall_s = time.time() - t0
     res.raw = out if len(out) < 2_000_000 else out[:1_000_000] + "\n...\n" + out[-1_000_000:]
     in_trace = False
+    pending = None
     for line in kept:
         m = _SUMMARY.match(line)
         if m:
@@ -262,7 +290,19 @@ def run_tlc(
             continue
         if in_trace:
             res.counterexample.append(line)
+        if pending is not None:
+            pending += " " + line.strip()
+            if _balanced(pending):
+                try:
+                    res.prints.append(parse_value(pending))
+                except Exception:
+                    pass
+                pending = None
+            continue
         if want_prints and (line.startswith("<<") or line.startswith("[") or line.startswith('"')):
+            if not _balanced(line):
+                pending = line.strip()  # TLC pretty-prints long values over several lines
+                continue
             try:
                 res.prints.append(parse_value(line.strip()))
             except Exception:
